@@ -57,6 +57,18 @@ CHECKS['C03'] = dict(
     design_ref='DESIGN.md section 4 C03',
     note='registered ServiceInfo objects have a server and are not mutated behind the registry; address memo lists '
          'modelled by validity flags; functions listed as not under contract are outside the proof')
+CHECKS['C13'] = dict(
+    text='Duplicate-question suppression is proved exact: QuestionHistory.suppresses is true iff the same question (by '
+         'identity) was recorded at most 999 ms ago with known answers all contained in the present ones; recording and '
+         'expiry (entries older than 999 ms, exactly those) are proved with loop invariants. generate_service_query is '
+         'proved for all caches/histories/type sets: a question is built for a type unless it is QM and suppressed, QU '
+         'questions are never suppressed and never recorded, the QU bit follows the first-query / forced-type rule, the '
+         'known answers are exactly the cached PTR records of that name that are not stale (more than half the TTL left), '
+         'and every QM question asked is recorded with time and known answers. Remaining TTL on the wire is C14 (_write_ttl).',
+    design_ref='DESIGN.md section 4 C13',
+    note='packet grouping (_group_ptr_queries_with_known_answers) assumed to keep questions with their known answers; '
+         'ServiceInfo lookups (_add_question_with_known_answers, async_request spacing) not under contract in this build; '
+         'browsed types distinct ignoring case')
 NOT_APPLICABLE = {
     'C07': 'end-to-end liveness over several hosts and lossy delivery: no per-function contract can express it '
            '(DESIGN.md section 6)',
